@@ -117,16 +117,25 @@ def install_fault(key, ch, state):
         wrap("_rawPrivateKeyOp", lambda a: ((a[0] + 1) % key.n,) + a[1:])
         return "rsa"
     if "ECDSA" in kind:
-        wrap("_sign", lambda a: (bytearray(a[0][:-1]) + b"\x00",) + a[1:])
+        wrap("_sign", lambda a: (_flip_first(a[0]),) + a[1:])
         wrap("_hashAndSign", lambda a: (bytearray(a[0]) + b"x",) + a[1:])
         return "ecdsa"
     if "EdDSA" in kind:
         wrap("_hashAndSign", lambda a: (bytearray(a[0]) + b"x",) + a[1:])
         return "eddsa"
     if "DSA" in kind:
-        wrap("sign", lambda a: (bytearray(a[0][:-1]) + b"\x00",) + a[1:])
+        wrap("sign", lambda a: (_flip_first(a[0]),) + a[1:])
         return "dsa"
     raise ValueError(kind)
+
+
+def _flip_first(data):
+    """DSA/ECDSA use only the leftmost bits of an over-long digest: alter
+    the first byte so that the signed value really differs."""
+    b = bytearray(data)
+    if b:
+        b[0] ^= 0x55
+    return b
 
 
 def uninstall(state):
